@@ -98,6 +98,7 @@ def run_dynamic(ctx, maxlen, bit_len, stds):
         jobs.append(guarded("bitset references shard %d" % k,
                             lambda k=k: ctx.run_harness(bins["misc"], ["--part", "bitref", "--len", str(bit_len), "--shard", str(k), str(nsh)], env=ENV, tag="misc")))
     if "misc" in bins:
+        jobs.append(guarded("swap under aliasing", lambda: ctx.run_harness(bins["misc"], ["--part", "swapalias"], env=ENV, tag="misc")))
         jobs.append(guarded("forward_sequence", lambda: ctx.run_harness(bins["misc"], ["--part", "fwdseq"], env=ENV, tag="misc")))
     for std in stds:
         for kind in range(NKINDS):
@@ -332,6 +333,9 @@ def run(ctx):
         "(address of the referent, value, no payload constructed from the original, owned object stored inside the wrapper, flags/second component still designate their originals), the lifetime "
         "registry and AddressSanitizer are polled; every scenario ends with the source destroyed and a full re-read. Bitset references: 2 block types x {bitset, view} x 4 access paths x bit {0,7,8,9} "
         "x 4 patterns x every sequence of length <= %d over 14 operations against a vector<bool> model. forward_sequence: result type x source type x category x size 0..3. "
+        "SWAP UNDER ALIASING: {optional, masked_value} x closure combinations with at least one reference closure {(T&,B&),(T&,B),(T,B&)} x value referents {same, distinct} x flag referents "
+        "{same, distinct} x equal/different contents x {a.swap(b), b.swap(a), a.swap(a), free swap} x {int, Counted}, and closure(x) against closure(x) / closure(y): swap must exchange the contents of "
+        "the designated objects component by component and rebind nothing. "
         "CONVERSIONS: a reference-closure wrapper built from lvalues (closure, proxy_wrapper, closure_pointer, optional, masked_value, xcomplex; closure T& and const T&) used as lvalue, xvalue and "
         "prvalue-proxy source of an owning specialization or value (converting constructors implicit and explicit, converting assignments, &&-qualified accessors and conversion operators, "
         "162 forms) x payload {Counted, heap std::string, std::vector<int>}: the originals keep their value and are never the source of a move, the result is equal and independent. "
